@@ -311,7 +311,7 @@ def run_check(modname: str, tier: str, seed: int, jobs: int | None = None) -> in
         # a violation that depends on what the worker process did before (module-level state poisoned by an earlier case)
         # does not reproduce from its own case alone: try up to 5 cases of the class and keep the first that replays
         stable, v = False, cands[0]
-        for cand in cands[:5]:
+        for cand in cands[: 1 if cands[0]["witness"].get("kind") == "did-not-return" else 5]:  # a hang costs a watchdog period per replay
             runs = []
             for _ in range(2):  # two separate fresh processes: module-level state of one replay cannot leak into the other
                 with _pool(repo, cand["buf"], 1) as ex:
